@@ -84,4 +84,18 @@ CHECKS = {
         "require": ["op:liquid_stake:ok", "op:submit_batch:ok", "op:hook:receive_rewards:ok", "op:resume_contract:ok"],
         "assumptions": [SIM],
     },
+    "C04": {
+        "level": "exploration",
+        "lanes": [("arith", lane("c04", {"cases": 60000}, {})), ("hist", hist("C04", qh=6))],
+        "rule": "arith lane: (N, L, x) triples from boundary generators (powers of two +-1, k*N/L +-1, all-ones, 10^k, tiny/huge mixes, random 128-bit) driven through ResumeContract + LiquidStake or LiquidUnstake + SubmitBatch on the real contract and compared with the harness's own 256-bit floor; unrepresentable results are skipped; distinct = (outcome class, direction, byte-length classes of N, L, x). hist lane: the same assertions on every stake / submit of random histories",
+        "require": ["c04:stake-ok", "c04:submit-ok", "c04:stake-refused", "op:liquid_stake:ok", "op:submit_batch:ok"],
+        "assumptions": [SIM, "triples whose exact result or new totals do not fit 128 bits are excluded, as the property states"],
+    },
+    "C16": {
+        "level": "exploration",
+        "lanes": [("hostile", hist("C16", qh=24, qs=40, ts=60, extra=["--hostile", "400", "--extreme", "1"]))],
+        "rule": "random (every second one extreme-but-accepted) configuration + directed prologue + random history interleaved with hostile messages to every entry point of both contracts (valid, unauthorized, mutated JSON, unknown ids, amounts 0..10^27, every principal incl. contracts and hook accounts, Reply with arbitrary id/data, acks for any sequence, all MigrateMsg variants under every stored version, instantiate with extreme values); every call under catch_unwind with overflow checks on; a panic counts when the state before and the would-be state after have a rate inside [1e-3, 1e3]; distinct = (message kind, outcome, abstract state)",
+        "require": ["op:probe:execute:ok", "op:probe:execute:fail", "op:probe:query:ok", "op:probe:reply:fail", "op:probe:migrate:fail", "op:probe:instantiate:ok", "op:probe:sudo:ok"],
+        "assumptions": [SIM, "simulated block time stays below the year 2286", "panics in states whose exchange rate is outside [1e-3, 1e3] are counted but not reported (outside the property's bounds)"],
+    },
 }
